@@ -22,6 +22,8 @@ from . import c02_e2e, common
 
 SIGS = ('C05:e2e-outcome-not-recorded', 'C05:e2e-not-withdrawn', 'C05:e2e-frame-changed', 'C05:e2e-no-answer',
         'C05:e2e-no-quiescence')
+ENDING = {'runtime': 'error', 'exit': 'exit', 'interrupt': 'interrupt', 'invalid-in': 'invalidIn',
+          'invalid-out': 'invalidOut'}
 KINDS = {'runtime': 'failure', 'exit': 'failure', 'interrupt': 'failure', 'invalid-in': 'invalid',
          'invalid-out': 'invalid'}
 
@@ -50,7 +52,7 @@ def run_scenario(store, sc, seed, res, probe=None):
     algs, targets = sc['algs'], sc['targets']
     w = c02_e2e.World(store, algs, targets, random.Random(f'{seed}:c05'))
     down = closure_down(algs)
-    hits, plan = [], {}
+    hits, plan, answers = [], {}, []
     stats = collections.Counter()
 
     def on_result(world, m, r, before, after, hist):
@@ -61,6 +63,9 @@ def run_scenario(store, sc, seed, res, probe=None):
         tag, t = unit
         want = KINDS[kind]
         stats['ended:' + kind] += 1
+        # what the real worker answered for this ending (for the correspondence with Model/Worker)
+        real = 'none' if r is None or r.type.name != 'response' else {True: 'success', False: 'failure', None: 'invalid'}[r.success]
+        answers.append((ENDING[kind], real))
         if r is None:
             hits.append(('C05:e2e-no-answer',
                          f'{tag}[{t}] ended with {kind} and the worker sent no answer to the farm: nothing is recorded, '
@@ -111,6 +116,7 @@ def run_scenario(store, sc, seed, res, probe=None):
                              f'the pipeline does not come to rest: pending {w.pending()}, queued {len(w.tasks)}'))
             stats['worker-deaths'] += len(w.worker_deaths)
             stats['executions'] = len(w.executed)
+            stats['answers'] = answers
             return hits, stats
         w.drain()
         for tag, t, kind in sc['failures']:
@@ -123,6 +129,7 @@ def run_scenario(store, sc, seed, res, probe=None):
             plan.pop((tag, t), None)
             w.ctl.FAIL.pop((tag, t), None)
         stats['worker-deaths'] += len(w.worker_deaths)
+        stats['answers'] = answers + [('ok', 'success')] * min(1, len(w.executed))
         return hits, stats
     finally:
         w.close()
@@ -218,6 +225,7 @@ def run(ctx, res):
     r = common.rng(ctx['seed'], 'C05e2e')
     thorough = ctx['tier'] == 'thorough' or ctx.get('escalate')
     scenarios = corpus() + [gen(r, small=not thorough) for _ in range(60 if thorough else 4)]
+    observed = []
     for i, sc in enumerate(scenarios):
         hits, stats = run_scenario(store, c02_e2e._norm(sc), ctx['seed'], res)  # pylint: disable=protected-access
         for sig, what in hits:
@@ -225,8 +233,19 @@ def run(ctx, res):
         res.case(('c05-e2e', repr(sc)), nontrivial=bool(sc['failures']),
                  sample={'e2e': sc} if i == 0 else None)
         res.count('e2e:scenario')
+        observed.extend(stats.pop('answers', []))
         for k, v in stats.items():
             res.count('e2e:' + k, v)
+    # correspondence: the regenerated clause table of cluster.execute (Model/Worker + Generated/WorkerGen) against
+    # what the real worker answered for every ending it was driven into
+    if ctx.get('lean') and observed:
+        pairs = sorted(set(observed))
+        outs = common.driver([common.sx(['worker', e]) for e, _r in pairs], 'Sched')
+        for (e, real), o in zip(pairs, outs):
+            res.traces += 1
+            res.count('model:worker-ending:' + e)
+            if o.strip() != real:
+                res.diff('Worker.answer vs pl.worker.cluster.execute', {'ending': e}, o.strip(), real)
     if thorough:
         import os
         exhaustive(ctx, res, depth=int(os.environ.get('VERIF_C05_DEPTH', '5')))
